@@ -1289,6 +1289,57 @@ BREAKING += _W5_BREAKING
 PRESERVING += _W5_PRESERVING
 UNDECIDED += _W5_UNDECIDED
 
+
+# ---- C13 round 8: records (namedtuple / small class) carrying the source text; single-exit lexer with a `tokens = None` sentinel ----
+_RD_LOAD = ("    if os.path.exists(path_or_source) or include:\n        log.info('reading file: {}'.format(os.path.abspath(path_or_source)))\n"
+            "        # exceptions here will be caught by the recursive parent\n        path = path_or_source\n        with open(path) as f:\n            source = f.read()\n"
+            "    else:\n        path = '<string>'\n        source = path_or_source\n")
+_LOAD_SOURCE = ("def load_source(path_or_source, include):\n    if os.path.exists(path_or_source) or include:\n        log.info('reading file: {}'.format(os.path.abspath(path_or_source)))\n"
+                "        with open(path_or_source) as f:\n            return SourceText(path_or_source, f.read())\n    return SourceText('<string>', path_or_source)\n\n\n")
+_NT_DEF = "from collections import namedtuple\nSourceText = namedtuple('SourceText', ['path', 'text'])\n\n\n"
+_CLS_DEF = "class SourceText:\n    def __init__(self, path, text):\n        self.path = path\n        self.text = text\n\n\n"
+_RD_DEF = "def read_lines(path_or_source, *, include=False, include_dirs=None):"
+
+
+def _reader_record(defn, loop):
+    return [(A, _RD_DEF, defn + _LOAD_SOURCE + _RD_DEF), (A, _RD_LOAD, "    source = load_source(path_or_source, include)\n"),
+            (A, _RD_LOOP, loop), (A, "        line = Line(path, i, raw_line)", "        line = Line(source.path, i, raw_line)")]
+
+
+_LEX_REST = ("\n    # strip comments\n" + _LEX_COMMENT + "\n\n    # pad parens before split\n" + _LEX_PAD + "\n\n" + _LEX_STRIP + "\n" + _LEX_EMPTY + "\n" + _LEX_DROP
+             + "\n    # carry the line and its tokens forward\n    return LineTokens(line, tokens)")
+
+
+def _lex_single_exit(split="re.split(r'[\\s,]+', contents)"):
+    return ("    # not lexed yet\n    tokens = None\n\n    match = RE_ERROR.match(line.contents)\n    if match is not None:\n        message = match.group(1)\n"
+            "        message = message.encode('utf-8').decode('unicode_escape')\n        tokens = ['error', message]\n\n"
+            "    if tokens is None:\n        match = RE_STRING.match(line.contents)\n        if match is not None:\n            value = match.group(1)\n"
+            "            value = value.encode('latin-1', 'backslashreplace').decode('unicode_escape')\n            tokens = ['string', value]\n\n"
+            "    if tokens is None:\n        contents = re.sub(r'#.*$', r'', line.contents)\n        contents = contents.replace('(', ' ( ').replace(')', ' ) ')\n        contents = contents.strip()\n"
+            "        if len(contents) == 0:\n            tokens = []\n        else:\n            tokens = " + split + "\n            while '' in tokens:\n                tokens.remove('')\n\n"
+            "    return LineTokens(line, tokens)")
+
+
+PRESERVING += [
+    ('p13-reader-namedtuple-source', ['C13'], _reader_record(_NT_DEF, "    for i, raw_line in enumerate(source.text.splitlines(), start=1):\n")),
+    ('p13-reader-class-source', ['C13'], _reader_record(_CLS_DEF, "    for i, raw_line in enumerate(source.text.splitlines(), start=1):\n")),
+    ('p13-lexer-single-exit', ['C13', 'C11'], [(A, _LEX_LITERALS + _LEX_REST, _lex_single_exit())]),
+]
+
+BREAKING += [
+    ('c13-reader-namedtuple-source-filtered', ['C13'], _reader_record(_NT_DEF, "    for i, raw_line in enumerate([l for l in source.text.splitlines() if l.strip()], start=1):\n")),
+    ('c13-lexer-single-exit-ws-only', ['C13'], [(A, _LEX_LITERALS + _LEX_REST, _lex_single_exit("re.split(r'\\s+', contents)"))]),
+]
+
+C13_FRONTEND_PRESERVING += [
+    # understood by the C13 register-number rule (a suppressed failure is a handled one); bitdom does not follow `with` yet
+    ('p13-reg-suppress', ['C13'], [(A, "import abc\n", "import abc\nimport contextlib\n"), (A, _REG_TRY, "    with contextlib.suppress(BaseException):\n        reg = int(reg, base=0)\n")]),
+    ('p13-reg-suppress-two-kinds', ['C13'], [(A, "import abc\n", "import abc\nimport contextlib\n"), (A, _REG_TRY, "    with contextlib.suppress(ValueError, TypeError):\n        reg = int(reg, 0)\n")]),
+]
+UNDECIDED += [
+    ('u13-reg-suppress-valueerror-only', ['C13'], [(A, "import abc\n", "import abc\nimport contextlib\n"), (A, _REG_TRY, "    with contextlib.suppress(ValueError):\n        reg = int(reg, base=0)\n")]),
+]
+
 # ---- white-box round: layout engines (C03 C08 C09 C20) ----
 from .variants_layout import BREAKING as _LAY_BREAKING, PRESERVING as _LAY_PRESERVING, UNDECIDED as _LAY_UNDECIDED  # noqa: E402
 BREAKING += _LAY_BREAKING
